@@ -9,6 +9,12 @@ from concurrent.futures import ThreadPoolExecutor
 
 VERIF = os.path.dirname(os.path.dirname(os.path.abspath(__file__)))
 SEEDED = os.path.join(VERIF, "seeded")
+BENIGN = False
+if "--benign" in sys.argv:
+    # behaviour-preserving refactorings written by sub-agents: every check must stay quiet on them
+    sys.argv.remove("--benign")
+    SEEDED = os.path.join(VERIF, "benign")
+    BENIGN = True
 
 
 def sh(cmd, cwd=None, env=None):
@@ -53,9 +59,9 @@ def main():
     with ThreadPoolExecutor(jobs) as ex:
         for r in ex.map(evaluate, names):
             status[r["name"]] = r
-            print(r["name"], "ERROR " + r["error"] if r["error"] else (sorted(r["caught_by"]) or "MISSED"), flush=True)
+            print(r["name"], "ERROR " + r["error"] if r["error"] else (sorted(r["caught_by"]) or ("QUIET" if BENIGN else "MISSED")), flush=True)
     json.dump(status, open(status_path, "w"), indent=1, sort_keys=True)
-    lines = ["| change | what it does (from its notes.md) | caught by (rule instances, current checks) |", "|---|---|---|"]
+    lines = ["| change | what it does (from its notes.md) | %s |" % ("alarms raised (must be none)" if BENIGN else "caught by (rule instances, current checks)"), "|---|---|---|"]
     for n in sorted(status):
         notes = os.path.join(SEEDED, n, "notes.md")
         title = ""
@@ -66,7 +72,7 @@ def main():
                     break
         cb = status[n]["caught_by"]
         rules = sorted({":".join(k.split(":")[:2]).split(":", 1)[1] if ":" in k else k for ks in cb.values() for k in ks})
-        lines.append("| %s | %s | %s |" % (n, title.replace("|", "/")[:160], ", ".join(rules) if rules else "**not caught**"))
+        lines.append("| %s | %s | %s |" % (n, title.replace("|", "/")[:160], ", ".join(rules) if rules else ("quiet" if BENIGN else "**not caught**")))
     open(os.path.join(SEEDED, "STATUS.md"), "w").write("\n".join(lines) + "\n")
 
 
